@@ -1,17 +1,48 @@
 (* C18  Relative paths and generated include directives lead to the file they name. *)
+From Coq Require Import String.   (* string literals of the examples; imported first so the list names win *)
 From Coq Require Import NArith ZArith List Bool.
 From DictIO Require Import Chars Str Value Scalar Paths MiscSpec PathsProofs.
 Import ListNotations.
+
+Module C18_ex.
+  Definition a : comps := [of_string "t"; of_string "d1"; of_string "s1"; of_string "deep"].
+  Definition b : comps := [of_string "t"; of_string "d1"; of_string "s2"; of_string "x.y"; of_string "b"].
+  Definition c : comps := [of_string "t"; of_string "d1"; of_string "s1"; of_string "deep"; of_string "er"; of_string "..."].
+  Definition d : comps := [of_string "t"; of_string "d1"].
+End C18_ex.
+Ltac nodots_tac := repeat (constructor; [reflexivity|]); constructor.
 
 (* the relative path joined to the start location denotes the target: below, above and beside the start *)
 Theorem C18_rel_join : forall from to, nodots from -> nodots to -> norm_join from (relative_path from to) = to.
 Proof. exact rel_join. Qed.
 Print Assumptions C18_rel_join.
 
+(* non-vacuity: target beside, below and above the start *)
+Example C18_rel_join_nonvacuous :
+  nodots C18_ex.a /\ nodots C18_ex.b /\ nodots C18_ex.c /\ nodots C18_ex.d /\
+  (relative_path C18_ex.a C18_ex.b = [dotdot; dotdot; of_string "s2"; of_string "x.y"; of_string "b"] /\
+   norm_join C18_ex.a (relative_path C18_ex.a C18_ex.b) = C18_ex.b) /\
+  (relative_path C18_ex.a C18_ex.c = [of_string "er"; of_string "..."] /\ norm_join C18_ex.a (relative_path C18_ex.a C18_ex.c) = C18_ex.c) /\
+  (relative_path C18_ex.a C18_ex.d = [dotdot; dotdot] /\ norm_join C18_ex.a (relative_path C18_ex.a C18_ex.d) = C18_ex.d).
+Proof.
+  assert (Ha : nodots C18_ex.a) by nodots_tac. assert (Hb : nodots C18_ex.b) by nodots_tac.
+  assert (Hc : nodots C18_ex.c) by nodots_tac. assert (Hd : nodots C18_ex.d) by nodots_tac.
+  refine (conj Ha (conj Hb (conj Hc (conj Hd (conj (conj _ (C18_rel_join _ _ Ha Hb))
+            (conj (conj _ (C18_rel_join _ _ Ha Hc)) (conj _ (C18_rel_join _ _ Ha Hd)))))))); vm_compute; reflexivity.
+Qed.
+
 (* the common root is an ancestor of every path ... *)
 Theorem C18_hcr_ancestor : forall l x, In x l -> is_prefix (common_prefix_all l) x = true.
 Proof. exact hcr_ancestor. Qed.
 Print Assumptions C18_hcr_ancestor.
+
+Example C18_hcr_ancestor_nonvacuous :
+  let l := [C18_ex.a; C18_ex.b; C18_ex.c] in
+  In C18_ex.b l /\ common_prefix_all l = [of_string "t"; of_string "d1"] /\ is_prefix (common_prefix_all l) C18_ex.b = true.
+Proof.
+  intros l. assert (H : In C18_ex.b l) by (right; left; reflexivity).
+  refine (conj H (conj _ (C18_hcr_ancestor l _ H))). vm_compute. reflexivity.
+Qed.
 
 (* ... and no deeper common ancestor exists *)
 Theorem C18_hcr_deepest : forall l p, l <> [] -> (forall x, In x l -> is_prefix p x = true) ->
@@ -19,11 +50,46 @@ Theorem C18_hcr_deepest : forall l p, l <> [] -> (forall x, In x l -> is_prefix 
 Proof. exact hcr_deepest. Qed.
 Print Assumptions C18_hcr_deepest.
 
+Example C18_hcr_deepest_nonvacuous :
+  let l := [C18_ex.a; C18_ex.b; C18_ex.c] in let p := [of_string "t"] in
+  l <> [] /\ (forall x, In x l -> is_prefix p x = true) /\ is_prefix p (common_prefix_all l) = true.
+Proof.
+  intros l p. assert (H1 : l <> []) by discriminate.
+  assert (H2 : forall x, In x l -> is_prefix p x = true).
+  { intros x Hx. cbn [l In] in Hx. destruct Hx as [<-|[<-|[<-|[]]]]; vm_compute; reflexivity. }
+  exact (conj H1 (conj H2 (C18_hcr_deepest l p H1 H2))).
+Qed.
+
 (* the directive written for an include names, when read again, exactly the relative path that was registered *)
 Theorem C18_directive : forall n, has_char c_dollar n = false -> (has_char c_sq n && has_char c_dq n) = false ->
   directive_name (of_string "#include " ++ format_string n) = Some n.
 Proof. exact directive_roundtrip. Qed.
 Print Assumptions C18_directive.
+
+(* non-vacuity: a relative path with a blank (written in single quotes), one with an apostrophe (double quotes), a
+   plain one (bare) *)
+Example C18_directive_nonvacuous :
+  let n1 := of_string "../s 2/x.y/b" in let n2 := of_string "../it's/b" in let n3 := of_string "sub/b.dict" in
+  (has_char c_dollar n1 = false /\ (has_char c_sq n1 && has_char c_dq n1) = false /\
+   of_string "#include " ++ format_string n1 = of_string "#include '../s 2/x.y/b'" /\
+   directive_name (of_string "#include " ++ format_string n1) = Some n1) /\
+  (has_char c_dollar n2 = false /\ (has_char c_sq n2 && has_char c_dq n2) = false /\
+   of_string "#include " ++ format_string n2 = of_string "#include ""../it's/b""" /\
+   directive_name (of_string "#include " ++ format_string n2) = Some n2) /\
+  (has_char c_dollar n3 = false /\ (has_char c_sq n3 && has_char c_dq n3) = false /\
+   directive_name (of_string "#include " ++ format_string n3) = Some n3).
+Proof.
+  intros n1 n2 n3.
+  assert (A1 : has_char c_dollar n1 = false) by (vm_compute; reflexivity).
+  assert (B1 : (has_char c_sq n1 && has_char c_dq n1) = false) by (vm_compute; reflexivity).
+  assert (A2 : has_char c_dollar n2 = false) by (vm_compute; reflexivity).
+  assert (B2 : (has_char c_sq n2 && has_char c_dq n2) = false) by (vm_compute; reflexivity).
+  assert (A3 : has_char c_dollar n3 = false) by (vm_compute; reflexivity).
+  assert (B3 : (has_char c_sq n3 && has_char c_dq n3) = false) by (vm_compute; reflexivity).
+  refine (conj (conj A1 (conj B1 (conj _ (C18_directive n1 A1 B1))))
+         (conj (conj A2 (conj B2 (conj _ (C18_directive n2 A2 B2)))) (conj A3 (conj B3 (C18_directive n3 A3 B3)))));
+  vm_compute; reflexivity.
+Qed.
 
 Example C18_example :
   let a := [of_string "t"; of_string "d1"; of_string "s1"; of_string "deep"] in
